@@ -454,6 +454,8 @@ def run_all(chk, r, generated):
                     prog, meta = translate(text, syntax, abi, f'tinyjambu_permutation_{v}')
                 except Untranslatable as e:
                     raise MachineryError(f"{os.path.basename(path)} ({tname}): instruction outside the modelled subset: {e}")
+                if tname == 'armv6m':
+                    meta = dict(meta, enc='thumb1')         # every instruction must have a 16-bit Thumb encoding
                 jobs.append((f"{tname}-{v}-{origin}", prog, meta, isa_tests(r, v, chk.thorough), 'MachAvr' if syntax == 'avr' else 'Mach32',
                              os.path.basename(path), tname))
                 # the same program run once symbolically: every round of the loop body, for all states and keys
